@@ -48,6 +48,8 @@ def check(run, tier):
     )
     q = tier == "quick"
     run.mc("MC_Select", "MC_Select" if q else "MC_Select_thorough", timeout=3000)
+    # unbounded: bit addresses of the bitmap are inside the string and pairwise distinct for every number of wells (TLAPS)
+    run.tlaps("SelectLemmas")
     r = rng("C12")
     run_calls(run, cases(tier, r), batch=6000, nontrivial=lambda rec: len(rec["sel"]) > 0)
     run.extra["exhaustive_up_to_wells"] = 10 if q else 14
